@@ -368,6 +368,8 @@ class Run:
         lines = []
         violations = 0
         os.makedirs(os.path.join(ROOT, "replays"), exist_ok=True)
+        for old in glob.glob(os.path.join(ROOT, "replays", "%s_%s_*.json" % (prop, self.tier))):
+            os.unlink(old)
         unlisted = [h for h in self.oracle_hits if h["signature"] not in known]
         listed = [h for h in self.oracle_hits if h["signature"] in known]
         for h in listed:
